@@ -47,7 +47,7 @@ static uint16_t fold(uint32_t acc) {
 enum Link { LINK_ETH, LINK_NONE, LINK_DOT3, LINK_LOOPBACK };
 enum L4 { L4_TCP, L4_UDP_RAW, L4_UDP_DNS, L4_ICMP_ECHO, L4_ICMP_TS, L4_ICMP_MASK, L4_ICMP6_ECHO,
           // safety-only stacks (not part of clauses (a)/(b))
-          L4_UDP_BOOTP, L4_UDP_DHCP, L4_UDP_DHCPV6 };
+          L4_UDP_BOOTP, L4_UDP_DHCP, L4_UDP_DHCPV6, L4_TCP_DNS };
 
 // the request as the generator decided it (the mirror is computed from this record, never from libtins getters)
 struct Req {
@@ -68,7 +68,7 @@ struct Req {
     size_t alen() const { return v6 ? 16 : 4; }
     unsigned proto() const {
         switch (l4) {
-            case L4_TCP: return 6;
+            case L4_TCP: case L4_TCP_DNS: return 6;
             case L4_ICMP_ECHO: case L4_ICMP_TS: case L4_ICMP_MASK: return 1;
             case L4_ICMP6_ECHO: return 58;
             default: return 17;
@@ -241,6 +241,18 @@ static void finish(Wire& w, Src& s, bool may_pad) {
     fix_checksums(b, L);
 }
 
+static Bytes dns_reply(const Req& q, Src& s) {
+    Bytes pl;
+    bool qd = s.boolean(), an = s.boolean();
+    p16(pl, q.dnsid); p16(pl, 0x8000 | (s.u16() & 0x7fff)); p16(pl, qd); p16(pl, an); p16(pl, 0); p16(pl, 0);
+    if (qd) { pn(pl, DNS_NAME, sizeof DNS_NAME); p16(pl, 1); p16(pl, 1); }
+    if (an) {
+        if (qd) p16(pl, 0xc00c); else pn(pl, DNS_NAME, sizeof DNS_NAME);
+        p16(pl, 1); p16(pl, 1); p32(pl, s.u32()); p16(pl, 4); p32(pl, s.u32());
+    }
+    return pl;
+}
+
 static Wire write_mirror(const Req& q, Src& s) {
     Wire w;
     Bytes& b = w.b;
@@ -256,27 +268,21 @@ static Wire write_mirror(const Req& q, Src& s) {
     write_link(q, s, w, q.v6 ? 0x86dd : 0x0800);
     write_net(q.v6, q.dip, q.sip, q.proto(), s, w);
     switch (q.l4) {
-        case L4_TCP: {
+        case L4_TCP: case L4_TCP_DNS: {
             Bytes opts = gen_tcp_options(s);
             if (!opts.empty()) w.what += " tcpopts=" + std::to_string(opts.size());
             p16(b, q.dport); p16(b, q.sport); p32(b, s.u32()); p32(b, s.u32());
             p8(b, ((5 + opts.size() / 4) << 4)); p8(b, s.u8()); p16(b, s.u16()); p16(b, 0); p16(b, 0);
             pv(b, opts);
-            pv(b, s.bytes(gen_len(s, 48)));
+            if (q.l4 == L4_TCP_DNS) { L.dns = (int)b.size(); pv(b, dns_reply(q, s)); }
+            else pv(b, s.bytes(gen_len(s, 48)));
             break;
         }
         case L4_UDP_RAW: case L4_UDP_DNS: case L4_UDP_BOOTP: case L4_UDP_DHCP: case L4_UDP_DHCPV6: {
             Bytes pl;
             if (q.l4 == L4_UDP_RAW) pl = s.bytes(gen_len(s, 48));
-            else if (q.l4 == L4_UDP_DNS) {
-                bool qd = s.boolean(), an = s.boolean();
-                p16(pl, q.dnsid); p16(pl, 0x8000 | (s.u16() & 0x7fff)); p16(pl, qd); p16(pl, an); p16(pl, 0); p16(pl, 0);
-                if (qd) { pn(pl, DNS_NAME, sizeof DNS_NAME); p16(pl, 1); p16(pl, 1); }
-                if (an) {
-                    if (qd) p16(pl, 0xc00c); else pn(pl, DNS_NAME, sizeof DNS_NAME);
-                    p16(pl, 1); p16(pl, 1); p32(pl, s.u32()); p16(pl, 4); p32(pl, s.u32());
-                }
-            } else if (q.l4 == L4_UDP_DHCPV6) {
+            else if (q.l4 == L4_UDP_DNS) pl = dns_reply(q, s);
+            else if (q.l4 == L4_UDP_DHCPV6) {
                 p8(pl, s.boolean() ? 2 : 7); p8(pl, q.xid >> 16); p16(pl, q.xid & 0xffff);
                 pv(pl, s.bytes(gen_len(s, 24)));
             } else {
@@ -383,8 +389,8 @@ static Req gen_req(Src& s, bool extended) {
         q.l4 = K[s.weighted({3, 3, 2, 2, 1, 1})];
     }
     if (extended && (q.link != LINK_LOOPBACK || s.boolean())) {
-        static const L4 K[] = {L4_UDP_BOOTP, L4_UDP_DHCP, L4_UDP_DHCPV6};
-        q.l4 = K[s.pick(3)];
+        static const L4 K[] = {L4_UDP_BOOTP, L4_UDP_DHCP, L4_UDP_DHCPV6, L4_TCP_DNS};
+        q.l4 = K[s.pick(4)];
     }
     q.sport = (uint16_t)s.edgy(16); q.dport = (uint16_t)s.edgy(16);
     q.id = (uint16_t)s.edgy(16); q.seq = (uint16_t)s.edgy(16); q.dnsid = (uint16_t)s.edgy(16);
@@ -419,6 +425,7 @@ static std::unique_ptr<PDU> build_request(const Req& q, Src& s, Ctx& ctx, std::v
             case L4_UDP_BOOTP: add(udp = new UDP(), "UDP"); add(bootp = new BootP(), "BootP"); break;
             case L4_UDP_DHCP: add(udp = new UDP(), "UDP"); add(bootp = new DHCP(), "DHCP"); break;
             case L4_UDP_DHCPV6: add(udp = new UDP(), "UDP"); add(d6 = new DHCPv6(), "DHCPv6"); break;
+            case L4_TCP_DNS: add(tcp = new TCP(), "TCP"); add(dns = new DNS(), "DNS"); break;
         }
     }
     prog.push_back("stack " + stack);
@@ -529,7 +536,7 @@ static void pair_case(Src& s, Ctx& ctx, bool extended) {
     ctx.sample((chain + " " + prog.back() + " reply:" + mir.what).substr(0, 300));
 
     if (extended || q.extended()) {
-        // stacks outside the statement (Loopback link, BOOTP/DHCP/DHCPv6 over UDP): memory safety only
+        // stacks outside the statement (Loopback link, BOOTP/DHCP/DHCPv6 over UDP, DNS over TCP): memory safety only
         ctx.label("extended-stack");
         (void)match(*r, mir.b, placement);
         sweep_truncations(*r, mir.b, placement, ctx);
